@@ -75,7 +75,7 @@ theorem undo_restores_or_unchanged (resolve : Resolver) (newer : Log) (T : Txn) 
   rcases undoTxn_cases resolve (newer ++ T :: older) utid [T.tid] with h | ⟨S, h⟩
   · exact Or.inl h
   · right
-    obtain ⟨hU, hS, _, hoids, hnoref⟩ := undoTxn_single_ok resolve hInv h
+    obtain ⟨hU, hS, hp, hoids, hnoref⟩ := undoTxn_single_ok resolve hInv h
     refine ⟨_, h, rfl, rfl, hoids, ?_⟩
     intro oid ho
     have hSN : S = (undoLoop resolve [] (flat (newer ++ T :: older)) utid (flat older).length T.recs).1 := by
@@ -89,7 +89,7 @@ theorem undo_restores_or_unchanged (resolve : Resolver) (newer : Log) (T : Txn) 
       rw [hl] at this
       simp only [Option.map_some, Option.some.injEq] at this
       rw [this]; exact (hS x hxm).1
-    · have hd := undoLoop_data resolve hInv (stagedOK_nil utid _) ho
+    · have hd := undoLoop_data resolve hInv hp (stagedOK_nil utid _) ho
       simp only [List.nil_append, List.append_nil] at hd
       rw [flat_cons]
       simp only
@@ -212,10 +212,10 @@ theorem undo_records (resolve : Resolver) (newer : Log) (T : Txn) (older : Log)
       | .merge m => m ≠ [] → x.pl = .data m
       | .refuse => False := by
   intro oid ho
-  obtain ⟨hU, _, _, _, hnoref⟩ := undoTxn_single_ok resolve hInv h
+  obtain ⟨hU, _, hp, _, hnoref⟩ := undoTxn_single_ok resolve hInv h
   obtain ⟨r, k, hn⟩ := newestFor_isSome_of_mem ho
-  have hctx := newest_ctx hInv hn
-  have hrec := undoRecord_ctx resolve hInv (stagedOK_nil utid _) hn
+  have hctx := newest_ctx hInv hp hn
+  have hrec := undoRecord_ctx resolve hInv hp (stagedOK_nil utid _) hn
   rw [List.nil_append] at hrec
   have hfind := (undoLoop_spec resolve [] (flat (newer ++ T :: older)) utid (flat older).length oid
     T.recs r k hn).2
